@@ -25,6 +25,8 @@ def crash_points(prog: dict, points: list[int] | None = None, sweeps: int = 1, l
     out = []
     for k in (points or []):
         tr, _, _ = run_fifo(prog, crash_at=k, sweeps_after_crash=sweeps, late_expire=late_expire)
+        if not late_expire and sweeps == 1:
+            tr["events"][0]["strict"] = True      # the queue chose every delivery and the lock lapsed first: deterministic run
         tr["meta"]["kind"] = "crash"
         tr["meta"]["sweeps"] = sweeps
         out.append(tr)
